@@ -295,7 +295,7 @@ fn c07_errors(rep: &mut Report, r: &mut Rng, shard: u64, nshards: u64) {
                         }
                     }
                     // ... or re-targeted it (separate response: own type and message id), or touched other parts
-                    let premut = r.below(9);
+                    let premut = r.below(12);
                     if premut == 8 {
                         // the final block of an upload: request and reply carry the same Block1 value (the
                         // acknowledgement a block handler put on the reply) - any error may follow, 4.08 included
@@ -346,6 +346,34 @@ fn c07_errors(rep: &mut Report, r: &mut Rng, shard: u64, nshards: u64) {
                                 resp.message.set_token(vec![0xEE]);
                             }
                             _ => {}
+                        }
+                    }
+                    if premut >= 9 {
+                        // the reply already looks like an error reply of the same shape: an earlier error with the
+                        // same code whose diagnostic has the same LENGTH but other bytes was applied (9), the
+                        // application itself had put code + text/plain + an equally long body there (10), or only
+                        // the length and content format coincide while the code differs (11)
+                        let other: Vec<u8> = err.message.bytes().rev().map(|b| if b == b'x' { b'y' } else { b ^ 0x01 }).collect();
+                        let other = String::from_utf8_lossy(&other).into_owned();
+                        let other = if other.len() == err.message.len() { other } else { "z".repeat(err.message.len()) };
+                        match (premut, err.code) {
+                            (9, Some(c)) => {
+                                let _ = guard(|| rq.apply_from_error(HandlingError::with_code(c, other.clone())));
+                            }
+                            (10, Some(c)) => {
+                                if let Some(resp) = rq.response.as_mut() {
+                                    resp.message.header.code = MessageClass::Response(c);
+                                    resp.message.set_content_format(ContentFormat::TextPlain);
+                                    resp.message.payload = other.clone().into_bytes();
+                                }
+                            }
+                            _ => {
+                                if let Some(resp) = rq.response.as_mut() {
+                                    resp.message.header.code = MessageClass::Response(ResponseType::Conflict);
+                                    resp.message.set_content_format(ContentFormat::TextPlain);
+                                    resp.message.payload = other.clone().into_bytes();
+                                }
+                            }
                         }
                     }
                     let before = rq.clone();
